@@ -869,7 +869,36 @@ CHECKS = {
 }
 
 
+def run_replay(prop, replay):
+    """re-records the family from the current tree with the replay's seed and tier, re-judges it and reports the
+    rejected events of the same (diagnosis, class) next to the recorded ones; exit 1 if the rejection reproduces"""
+    with open(replay) as f:
+        rp = json.load(f)
+    meta = rp.get("meta", {})
+    os.environ["VERIF_SEED"] = str(meta.get("seed", vlib.seed()))
+    tier = meta.get("tier", "quick")
+    os.environ["VERIF_TIER"] = tier
+    chk = CHECKS[rp.get("property", prop)]
+    want = (meta.get("diag"), meta.get("cls"))
+    hits = []
+    for fname in chk["families"]:
+        r = family_result(fname, tier)
+        hits += [b for b in r.bad if (b["diag"], b["cls"]) == want]
+    keys = set(json.dumps(b["event"], sort_keys=True) for b in rp.get("rejected", []))
+    same = [b for b in hits if json.dumps(b["event"], sort_keys=True) in keys]
+    print("replay %s: diagnosis=%s class=%s recorded=%d  reproduced now: %d events of that class (%d identical to recorded ones)" % (
+        os.path.basename(replay), want[0], want[1], len(rp.get("rejected", [])), len(hits), len(same)))
+    for b in (same or hits)[:10]:
+        print("  " + brief(b))
+    if hits:
+        print("VIOLATION property=%s replay=%s" % (rp.get("property", prop), replay))
+        return 1
+    return 0
+
+
 def run_check(prop, tier, replay, t0):
+    if replay:
+        return run_replay(prop, replay)
     chk = CHECKS[prop]
     known = vlib.load_known()
     bads = []
